@@ -197,6 +197,33 @@ Theorem C05_one_accepted_connection : forall key conv read,
   filter (of_key key) (listener_view read) = one_session key conv (map dgram (filter (from_key key) read)).
 Proof. exact one_accepted_connection. Qed.
 
+(* THE PREMISE "all datagrams under the ClientID carry one conversation id" is a premise about the CLIENT, and it is
+   needed: client/lib/snowflake.go newSession draws one ClientID (turbotunnel.NewClientID) and makes exactly ONE KCP
+   conversation (kcp.NewConn2, which draws the conversation id once) over the one RedialPacketConn whose dialContext
+   sends that ClientID, so every datagram of the session carries the same conv. A peer that does otherwise gets what
+   kcp-go's listener does, and the model says what that is: for ANY history satisfying the premise with at least one
+   datagram of [key] looked at, one more datagram under the same ClientID with ANOTHER conversation id and sn = 0 closes
+   the accepted connection and makes a second one (Listener.packetInput: `else if sn == 0 { s.Close(); s = nil }`). So
+   without the premise "exactly one accepted connection" is false, whatever conversation id one names (second theorem).
+   (A datagram of another conversation with sn <> 0 is dropped by the listener and changes nothing: [l_input].)
+   Observed on the real kcp-go listener by lib/checks/c05.py (move case kind two-conversations-one-clientid). *)
+Theorem C05_two_convs_two_connections : forall key conv conv2 read x2,
+  (forall x, In x read -> from_key key x = true -> exists sn, conv_sn (dgram x) = Some (conv, sn)) ->
+  filter (from_key key) read <> [] ->
+  snd x2 = key -> long_enough x2 = true -> conv_sn (dgram x2) = Some (conv2, 0) -> conv2 <> conv ->
+  filter (of_key key) (listener_view (read ++ [x2])) =
+    [{| l_key := key; l_conv := conv; l_in := map dgram (filter (from_key key) read); l_live := false |};
+     {| l_key := key; l_conv := conv2; l_in := [dgram x2]; l_live := true |}].
+Proof. exact second_conv_second_connection. Qed.
+
+Theorem C05_same_conv_premise_is_needed : forall key conv conv2 read x2 conv',
+  (forall x, In x read -> from_key key x = true -> exists sn, conv_sn (dgram x) = Some (conv, sn)) ->
+  filter (from_key key) read <> [] ->
+  snd x2 = key -> long_enough x2 = true -> conv_sn (dgram x2) = Some (conv2, 0) -> conv2 <> conv ->
+  filter (of_key key) (listener_view (read ++ [x2])) <>
+    one_session key conv' (map dgram (filter (from_key key) (read ++ [x2]))).
+Proof. exact second_conv_not_one_connection. Qed.
+
 (* Time plays no role upstream: the timed server is, on the carriers' upstream view, the receive queue and what KCP
    reads, the untimed server on the same arrivals and closes (plus a close where a write loop ended). *)
 Theorem C05_timed_upstream_is_untimed : forall timeout ops,
@@ -321,6 +348,29 @@ Proof.
   cbn zeta. split; [apply fresh_fromb_ok; vm_compute; reflexivity|]. split.
   - intros x Hin _. vm_compute in Hin. destruct Hin as [<-|[<-|[]]]; vm_compute; eexists; reflexivity.
   - vm_compute. repeat split.
+Qed.
+
+(* non-vacuity of C05_two_convs_two_connections, concrete bytes: ClientID c1 sends two datagrams of conversation 7
+   (sn 0, 1), a datagram of another ClientID is read in between, then c1 sends conversation 9 with sn = 0: two accepted
+   connections under c1, the first closed with its two datagrams, the second live; the other ClientID keeps its own.
+   With sn = 1 instead, the datagram of conversation 9 is dropped and c1 keeps its one connection. *)
+Example C05_two_convs_two_connections_example :
+  let c1 := [1;2;3;4;5;6;7;8] in let c2 := [9;9;9;9;9;9;9;9] in
+  let read := [(c05_dgram 7 0, c1); (c05_dgram 5 0, c2); (c05_dgram 7 1, c1)] in
+  (forall x, In x read -> from_key c1 x = true -> exists sn, conv_sn (dgram x) = Some (7, sn)) /\
+  filter (from_key c1) read <> [] /\ long_enough (c05_dgram 9 0, c1) = true /\
+  conv_sn (dgram (c05_dgram 9 0, c1)) = Some (9, 0) /\
+  listener_view (read ++ [(c05_dgram 9 0, c1)]) =
+    [{| l_key := c1; l_conv := 7; l_in := [c05_dgram 7 0; c05_dgram 7 1]; l_live := false |};
+     {| l_key := c2; l_conv := 5; l_in := [c05_dgram 5 0]; l_live := true |};
+     {| l_key := c1; l_conv := 9; l_in := [c05_dgram 9 0]; l_live := true |}] /\
+  listener_view (read ++ [(c05_dgram 9 1, c1)]) =
+    [{| l_key := c1; l_conv := 7; l_in := [c05_dgram 7 0; c05_dgram 7 1]; l_live := true |};
+     {| l_key := c2; l_conv := 5; l_in := [c05_dgram 5 0]; l_live := true |}].
+Proof.
+  cbn zeta. split.
+  - intros x Hin Hf. destruct Hin as [<-|[<-|[<-|[]]]]; try (vm_compute; eexists; reflexivity). vm_compute in Hf. discriminate.
+  - split; [vm_compute; discriminate|]. vm_compute. repeat split.
 Qed.
 
 (* the hypothesis of C05_window_below_retention_is_fresh is satisfiable: a schedule with an idle gap of 59.9 s *)
